@@ -510,7 +510,7 @@ def fold_shadow_helpers(ctx, ms, rfn, dfn, pos_map, pos_store, width):
                 bad = bad or (msg if not ok else 'another policy is disturbed')
         out['restore'] = (bad is None, bad or 'folded over %d stacks' % len(stacks))
     except Unfoldable as ex:
-        ctx.count('shadow_helpers_unfoldable', 1)
+        ctx.count("shadow_helpers_unfoldable", 1); ctx.note("shadow helpers not foldable: %s" % ex); import os; os.environ.get("PV_DEBUG") and print("UNFOLDABLE", ex)
         return None
     ctx.count('shadow_helper_cases_folded', n_cases)
     return out
